@@ -410,6 +410,271 @@ theorem findMntpnt_scan (acc : List Byte → Bool) (fs : FS) (bufsiz : Nat) (m :
   simp only [h1, h2, h3, Bool.false_eq_true, if_false]
   exact mntLoop_eq_findSome fs bufsiz _ m
 
+/-! ### well-formed /proc/mounts -/
+
+/-- a field of a well-formed /proc/mounts line as the kernel prints it when nothing needs escaping -/
+def PlainField (f : List Byte) : Prop := f ≠ [] ∧ ∀ c ∈ f, c ≠ 32 ∧ c ≠ 9 ∧ c ≠ 92 ∧ c ≠ 0 ∧ c ≠ 10
+
+/-- `fsname dir type opts 0 0` (without the newline) -/
+def mountLine (fsname dir type opts : List Byte) : List Byte :=
+  fsname ++ 32 :: (dir ++ 32 :: (type ++ 32 :: (opts ++ [32, 48, 32, 48])))
+
+theorem takeWhile_append_stop (p : Byte → Bool) (pre : List Byte) (c : Byte) (r : List Byte)
+    (hpre : ∀ x ∈ pre, p x = true) (hc : p c = false) : (pre ++ c :: r).takeWhile p = pre := by
+  induction pre with
+  | nil => rw [List.nil_append, List.takeWhile_cons, hc]; rfl
+  | cons x pre ih =>
+    rw [List.cons_append, List.takeWhile_cons, hpre x (List.mem_cons_self)]
+    simp only [if_true]
+    rw [ih (fun y hy => hpre y (List.mem_cons_of_mem _ hy))]
+
+theorem isBlank_plain (f : List Byte) (hf : PlainField f) : ∀ x ∈ f, (!isBlank x) = true := by
+  intro x hx
+  have := hf.2 x hx
+  unfold isBlank
+  simp only [Bool.not_eq_true', Bool.or_eq_false_iff, beq_eq_false_iff_ne, ne_eq]
+  exact ⟨this.1, this.2.1⟩
+
+theorem plain_head (f : List Byte) (hf : PlainField f) (R : List Byte) :
+    ∃ c t, f ++ R = c :: t ∧ isBlank c = false ∧ c ∈ f := by
+  cases f with
+  | nil => exact absurd rfl hf.1
+  | cons c t =>
+    refine ⟨c, t ++ R, rfl, ?_, List.mem_cons_self⟩
+    have := isBlank_plain _ hf c (List.mem_cons_self)
+    simpa using this
+
+theorem dropWhile_blank_plain (f : List Byte) (hf : PlainField f) (R : List Byte) :
+    (f ++ R).dropWhile isBlank = f ++ R := by
+  obtain ⟨c, t, e, hc, _⟩ := plain_head f hf R
+  rw [e, List.dropWhile_cons, hc]; rfl
+
+/-- one `strsep` + `strspn` step on `field SPACE next-field…` -/
+theorem sepTok_field (f : List Byte) (hf : PlainField f) (g : List Byte) (hg : PlainField g) (R : List Byte) :
+    sepTok (some (f ++ 32 :: (g ++ R))) = (f, some (g ++ R)) := by
+  unfold sepTok
+  simp only []
+  have hb : (!isBlank 32) = false := by decide
+  rw [dropWhile_append_stop _ f 32 _ (isBlank_plain f hf) hb, takeWhile_append_stop _ f 32 _ (isBlank_plain f hf) hb]
+  simp only []
+  rw [dropWhile_blank_plain g hg R]
+
+theorem decodeAux_plain : ∀ (f : List Byte), (∀ c ∈ f, c ≠ 92) → decodeAux 0 f = f
+  | [], _ => by rw [decodeAux]
+  | c :: r, h => by
+    rw [decodeAux, if_neg (h c (List.mem_cons_self))]
+    simp only []
+    rw [decodeAux_plain r (fun x hx => h x (List.mem_cons_of_mem _ hx))]
+
+theorem decodeName_plain (f : List Byte) (hf : PlainField f) : decodeName f = f :=
+  decodeAux_plain f (fun c hc => (hf.2 c hc).2.2.1)
+
+theorem plain48 : PlainField [48] := ⟨by simp, by intro c hc; simp at hc; subst hc; decide⟩
+
+theorem parseEnt_mountLine (fsname dir type opts : List Byte) (hf : PlainField fsname) (hd : PlainField dir)
+    (ht : PlainField type) (ho : PlainField opts) :
+    parseEnt (mountLine fsname dir type opts) = { dir := dir, type := type, opts := opts } := by
+  unfold parseEnt mountLine
+  simp only []
+  rw [sepTok_field fsname hf dir hd]
+  simp only []
+  rw [sepTok_field dir hd type ht]
+  simp only []
+  rw [sepTok_field type ht opts ho]
+  simp only []
+  have : opts ++ [32, 48, 32, 48] = opts ++ 32 :: ([48] ++ [32, 48]) := by simp
+  rw [this, sepTok_field opts ho [48] plain48]
+  simp only []
+  rw [decodeName_plain dir hd, decodeName_plain type ht, decodeName_plain opts ho]
+
+theorem mountLine_mem (fsname dir type opts : List Byte) (hf : PlainField fsname) (hd : PlainField dir)
+    (ht : PlainField type) (ho : PlainField opts) : ∀ c ∈ mountLine fsname dir type opts, c ≠ 10 ∧ c ≠ 0 := by
+  intro c hc
+  unfold mountLine at hc
+  simp only [List.mem_append, List.mem_cons, List.mem_nil_iff, or_false] at hc
+  have p := fun (f : List Byte) (h : PlainField f) (hc : c ∈ f) => And.intro (h.2 c hc).2.2.2.2 (h.2 c hc).2.2.2.1
+  rcases hc with hc | hc | hc | hc | hc | hc | hc | hc | hc | hc | hc
+  · exact p _ hf hc
+  · subst hc; decide
+  · exact p _ hd hc
+  · subst hc; decide
+  · exact p _ ht hc
+  · subst hc; decide
+  · exact p _ ho hc
+  · subst hc; decide
+  · subst hc; decide
+  · subst hc; decide
+  · subst hc; decide
+
+theorem stripTrail_mountLine (fsname dir type opts : List Byte) :
+    stripTrail (mountLine fsname dir type opts) = mountLine fsname dir type opts := by
+  have e : mountLine fsname dir type opts = (fsname ++ 32 :: (dir ++ 32 :: (type ++ 32 :: (opts ++ [32, 48, 32])))) ++ [48] := by
+    unfold mountLine; simp
+  unfold stripTrail
+  rw [e, List.reverse_append]
+  simp only [List.reverse_cons, List.reverse_nil, List.nil_append, List.singleton_append]
+  rw [List.dropWhile_cons]
+  have : isBlank 48 = false := by decide
+  rw [this]
+  simp
+
+/-- a well-formed line of /proc/mounts (plain fields, not a comment, fits the buffer) is delivered by getmntent_r
+as exactly its directory, type and option fields, and the stream continues behind its newline -/
+theorem nextEnt_mountLine (bufsiz fuel : Nat) (fsname dir type opts rest : List Byte) (hf : PlainField fsname)
+    (hd : PlainField dir) (ht : PlainField type) (ho : PlainField opts) (hc : ∀ t, fsname ≠ 35 :: t)
+    (hlen : (mountLine fsname dir type opts).length + 1 ≤ bufsiz - 1) :
+    nextEnt bufsiz (fuel + 1) (mountLine fsname dir type opts ++ 10 :: rest) =
+      some ({ dir := dir, type := type, opts := opts }, rest) := by
+  have hm := mountLine_mem fsname dir type opts hf hd ht ho
+  have hne : mountLine fsname dir type opts ++ 10 :: rest ≠ [] := by simp
+  have hz : ∀ c ∈ mountLine fsname dir type opts ++ [10], c ≠ 0 := by
+    intro c hc
+    rcases List.mem_append.mp hc with hc | hc
+    · exact (hm c hc).2
+    · simp at hc; subst hc; decide
+  have hml : mntLine bufsiz (mountLine fsname dir type opts ++ 10 :: rest) = (mountLine fsname dir type opts, rest) := by
+    unfold mntLine
+    simp only []
+    rw [fgets_line bufsiz _ rest (fun c hc => (hm c hc).1) hlen]
+    simp only []
+    rw [cstr_nonzero _ hz]
+    have hcont : (mountLine fsname dir type opts ++ [10]).contains 10 = true := by simp
+    rw [if_pos hcont, chopNl_line _ [] (fun c hc => (hm c hc).1), stripTrail_mountLine]
+  rw [nextEnt, if_neg hne, hml]
+  simp only []
+  have hdw : (mountLine fsname dir type opts).dropWhile isBlank = mountLine fsname dir type opts := by
+    unfold mountLine; exact dropWhile_blank_plain fsname hf _
+  rw [hdw]
+  obtain ⟨c, t, e, _, _⟩ := plain_head fsname hf (32 :: (dir ++ 32 :: (type ++ 32 :: (opts ++ [32, 48, 32, 48]))))
+  have e' : mountLine fsname dir type opts = c :: t := e
+  have hc35 : c ≠ 35 := by
+    intro h
+    cases fsname with
+    | nil => exact absurd rfl hf.1
+    | cons x xs =>
+      simp only [List.cons_append, List.cons.injEq] at e
+      exact hc xs (by rw [e.1, h])
+  rw [e']
+  simp only [hc35, if_false]
+  rw [← e', parseEnt_mountLine fsname dir type opts hf hd ht ho]
+
+/-- one line of /proc/mounts before rendering -/
+structure MntRaw where
+  fsname : List Byte
+  dir : List Byte
+  type : List Byte
+  opts : List Byte
+
+def MntRaw.Ok (bufsiz : Nat) (r : MntRaw) : Prop :=
+  PlainField r.fsname ∧ PlainField r.dir ∧ PlainField r.type ∧ PlainField r.opts ∧ (∀ t, r.fsname ≠ 35 :: t) ∧
+  (mountLine r.fsname r.dir r.type r.opts).length + 1 ≤ bufsiz - 1
+
+def MntRaw.ent (r : MntRaw) : MntEnt := { dir := r.dir, type := r.type, opts := r.opts }
+
+/-- the file the kernel prints for these mounts -/
+def renderMounts : List MntRaw → List Byte
+  | [] => []
+  | r :: rs => mountLine r.fsname r.dir r.type r.opts ++ 10 :: renderMounts rs
+
+/-- on a well-formed /proc/mounts getmntent_r delivers exactly the kernel's entries, in order -/
+theorem entries_renderMounts (bufsiz : Nat) : ∀ (rs : List MntRaw) (fuel : Nat), rs.length < fuel →
+    (∀ r ∈ rs, r.Ok bufsiz) → entries bufsiz fuel (renderMounts rs) = rs.map MntRaw.ent
+  | [], fuel, hf, _ => by
+    cases fuel with
+    | zero => omega
+    | succ f => simp [renderMounts, entries, nextEnt]
+  | r :: rs, fuel, hf, hwf => by
+    cases fuel with
+    | zero => omega
+    | succ f =>
+      have hf' : rs.length < f := by simp only [List.length_cons] at hf; omega
+      obtain ⟨h1, h2, h3, h4, h5, h6⟩ := hwf r (List.mem_cons_self)
+      rw [renderMounts, entries, nextEnt_mountLine bufsiz _ r.fsname r.dir r.type r.opts _ h1 h2 h3 h4 h5 h6]
+      simp only [List.map_cons]
+      rw [entries_renderMounts bufsiz rs f hf' (fun x hx => hwf x (List.mem_cons_of_mem _ hx))]
+      rfl
+
+theorem renderMounts_length_ge : ∀ rs : List MntRaw, rs.length ≤ (renderMounts rs).length
+  | [] => by simp [renderMounts]
+  | r :: rs => by
+    have := renderMounts_length_ge rs
+    simp only [renderMounts, List.length_cons, List.length_append]; omega
+
+/-! ### the scan terminates -/
+
+theorem discardLine_le : ∀ (fuel : Nat) (s : List Byte), (discardLine fuel s).length ≤ s.length
+  | 0, s => by rw [discardLine]; omega
+  | fuel+1, s => by
+    rw [discardLine]
+    split
+    · simp
+    · split
+      · exact fgets_rest_le 1024 s
+      · have h1 := discardLine_le fuel (fgets 1024 s).2
+        have h2 := fgets_rest_le 1024 s
+        omega
+
+theorem mntLine_progress (bufsiz : Nat) (hb : 2 ≤ bufsiz) (s : List Byte) (hs : s ≠ []) :
+    (mntLine bufsiz s).2.length < s.length := by
+  have hp := fgets_progress bufsiz hb s hs
+  unfold mntLine
+  simp only []
+  split
+  · exact hp
+  · have := discardLine_le ((fgets bufsiz s).2.length + 1) (fgets bufsiz s).2
+    simp only []; omega
+
+theorem nextEnt_rest (bufsiz : Nat) (hb : 2 ≤ bufsiz) : ∀ (fuel : Nat) (s : List Byte) (e : MntEnt) (r : List Byte),
+    nextEnt bufsiz fuel s = some (e, r) → r.length < s.length
+  | 0, _, _, _, h => by cases h
+  | fuel+1, s, e, r, h => by
+    rw [nextEnt] at h
+    split at h
+    · cases h
+    · rename_i hs
+      have hp := mntLine_progress bufsiz hb s hs
+      simp only [] at h
+      split at h
+      · have := nextEnt_rest bufsiz hb fuel _ e r h; omega
+      · split at h
+        · have := nextEnt_rest bufsiz hb fuel _ e r h; omega
+        · injection h with h; injection h with _ h; rw [← h]; exact hp
+
+theorem nextEnt_fuel (bufsiz : Nat) (hb : 2 ≤ bufsiz) : ∀ (f1 f2 : Nat) (s : List Byte), s.length < f1 → s.length < f2 →
+    nextEnt bufsiz f1 s = nextEnt bufsiz f2 s
+  | 0, _, _, h, _ => by omega
+  | _+1, 0, _, _, h => by omega
+  | f1+1, f2+1, s, h1, h2 => by
+    rw [nextEnt, nextEnt]
+    by_cases hs : s = []
+    · simp [hs]
+    · rw [if_neg hs, if_neg hs]
+      have hp := mntLine_progress bufsiz hb s hs
+      have ih := nextEnt_fuel bufsiz hb f1 f2 (mntLine bufsiz s).2 (by omega) (by omega)
+      simp only []
+      split
+      · exact ih
+      · split
+        · exact ih
+        · rfl
+
+/-- the /proc/mounts scan ends: the fuel `length+1` that `findMntpnt` passes is enough, more changes nothing -/
+theorem mntLoop_fuel (fs : FS) (bufsiz : Nat) (hb : 2 ≤ bufsiz) : ∀ (f1 f2 : Nat) (s : List Byte), s.length < f1 → s.length < f2 →
+    mntLoop fs bufsiz f1 s = mntLoop fs bufsiz f2 s
+  | 0, _, _, h, _ => by omega
+  | _+1, 0, _, _, h => by omega
+  | f1+1, f2+1, s, h1, h2 => by
+    rw [mntLoop, mntLoop]
+    cases hn : nextEnt bufsiz (s.length + 1) s with
+    | none => rfl
+    | some er =>
+      obtain ⟨e, rest⟩ := er
+      simp only []
+      have hr := nextEnt_rest bufsiz hb _ s e rest hn
+      cases entMatch fs e with
+      | some r => rfl
+      | none => exact mntLoop_fuel fs bufsiz hb f1 f2 rest (by omega) (by omega)
+
 /-! ### hwloc_admin_disable_set_from_cgroup, hwloc_linux__get_allowed_resources -/
 
 /-- nothing is intersected: the previous content of the set never matters (it is replaced by the list read
